@@ -6,6 +6,7 @@ import (
 	"fmt"
 	"iter"
 	"maps"
+	"math"
 	"slices"
 	"strings"
 
@@ -698,7 +699,7 @@ func (p *Payload) Get(key string) any {
 
 	if p.memoizedFields != nil {
 		if value, ok := p.memoizedFields[key]; ok {
-			return value
+			return normalizeNumeric(value)
 		}
 	}
 
@@ -720,13 +721,32 @@ func (p *Payload) Get(key string) any {
 		if string(keyBytes) == key {
 			value, err := iter.valueAny()
 			if err == nil {
-				return value
+				return normalizeNumeric(value)
 			}
 			break
 		}
 	}
 
 	return nil
+}
+
+// normalizeNumeric gives a numeric field value the same Go type no matter how
+// the sender encoded it. MessagePack decoding yields uint64 for integers sent
+// in an unsigned encoding and float32 for 32-bit floats; the samplers (rule
+// comparisons, sample keys) only understand int64 and float64, so a value
+// like uint64(200) would otherwise never equal 200. Unsigned values too large
+// for int64 become float64, which is also what JSON ingestion produces.
+func normalizeNumeric(value any) any {
+	switch v := value.(type) {
+	case uint64:
+		if v <= math.MaxInt64 {
+			return int64(v)
+		}
+		return float64(v)
+	case float32:
+		return float64(v)
+	}
+	return value
 }
 
 func (p *Payload) Set(key string, value any) {
